@@ -20,7 +20,7 @@ PROPS = {
   "level_text": "Seeded search over (device state, target) pairs; every emitted script is executed on a stateful ASA model and the resulting managed view must equal the target's, and a second real compare must be empty. Sampling, not proof; the schedule/fault dimension does not influence this property (input-quantified).",
   "level_note": "Trusts the ASA node model and the canonical-view oracle in /verif/sim/cisco; covers ACLs, object-groups, access-group bindings and routes (VPN object families only where the generator emits them).",
   "rule": "case = (device config A derived from target B by seeded edit operators, or drawn independently); non-trivial = tool accepted the pair and emitted a non-empty script; distinct = hash of (device text, target text)",
-  "quick": B(80000, 40), "thorough": B(400000, 900),
+  "quick": B(80000, 40), "thorough": B(3000000, 900),
   "real": REAL_PLAN, "stubs": STUB_PLAN, "assumptions": ASSUME_NODE, "min_nontrivial": 50,
  },
  "C02": {
@@ -29,7 +29,7 @@ PROPS = {
   "level_text": "Seeded search over IOS (device, target) pairs; numbered ACL commands are executed with real sequence-number arithmetic on the IOS model; the resulting filter (runs of same-action entries as multisets) and routes must equal the target's and the second compare must be empty. Sampling, not proof.",
   "level_note": "Trusts the IOS node model; log options are not part of the compared filter semantics because the statement speaks about filtering.",
   "rule": "as C01 with the IOS generator; non-trivial = accepted and non-empty script; distinct = hash of (device text, target text)",
-  "quick": B(80000, 40), "thorough": B(400000, 900),
+  "quick": B(80000, 40), "thorough": B(3000000, 900),
   "real": REAL_PLAN, "stubs": STUB_PLAN, "assumptions": ASSUME_NODE, "min_nontrivial": 50,
  },
  "C07": {
@@ -38,7 +38,7 @@ PROPS = {
   "level_text": "Seeded search over device states with unmanaged clutter (interfaces unknown to the target with their ACLs and groups, untagged unused objects, routes of other VRFs, unmodelled lines, aaa-server); invariant checked after each command prefix. ASA, IOS (plan mode), PAN-OS (everything outside the targeted vsys) and NSX (objects without the Netspoc prefix) in live sessions.",
   "level_note": "Trusts the node model and the oracle's own reachability computation of the out-of-scope set.",
   "rule": "case = cisco pair with clutter knob; non-trivial = accepted, non-empty script; distinct = hash of texts",
-  "quick": B(100000, 40), "thorough": B(400000, 900),
+  "quick": B(100000, 40), "thorough": B(4000000, 900),
   "real": REAL_PLAN, "stubs": STUB_PLAN, "assumptions": ASSUME_NODE, "min_nontrivial": 50,
  },
  "C08": {
@@ -47,7 +47,7 @@ PROPS = {
   "level_text": "Seeded search over ASA/IOS pairs biased towards sharing patterns; each script position is an executed step on a device model that enforces the rules the statement names.",
   "level_note": "Trusts the nodes' referential rules (own reference tables): ASA, IOS, PAN-OS, NSX.",
   "rule": "case = cisco pair; non-trivial = accepted, non-empty script; distinct = hash of texts",
-  "quick": B(100000, 40), "thorough": B(400000, 900),
+  "quick": B(100000, 40), "thorough": B(4000000, 900),
   "real": REAL_PLAN, "stubs": STUB_PLAN, "assumptions": ASSUME_NODE, "min_nontrivial": 50,
  },
  "C14": {
@@ -56,7 +56,7 @@ PROPS = {
   "level_text": "Each (old,new) pair is decided exactly over the enumerated packet universe at every step; the search is over pairs. Joined two-command lines are one atomic step, object-group membership edits are excluded exactly as the statement says.",
   "level_note": "Trusts the node model's ACL arithmetic and the entry parser of the oracle (generator vocabulary: ip/tcp/udp/icmp, host/net/any/group, eq/range). ASA, IOS (ACLs and routes), Linux (routes).",
   "rule": "case = cisco pair; non-trivial = accepted, non-empty script; distinct = hash of texts",
-  "quick": B(12000, 40), "thorough": B(300000, 900),
+  "quick": B(12000, 40), "thorough": B(1000000, 900),
   "real": REAL_PLAN, "stubs": STUB_PLAN, "assumptions": ASSUME_NODE, "min_nontrivial": 50,
  },
 }
@@ -73,7 +73,7 @@ PROPS.update({
   "level_text": "For every sampled (A,B) with pending changes the product {drc, do-approve} x 4 hostname variants x {marker present, absent, partial, not configured} is run completely; a wrong or unmanaged device must receive no change/guard/save command and the run must fail with a diagnostic; marker not configured must behave like marker present. ASA, IOS, Linux (hostname x /etc/issue marker) and PAN-OS (hostname x display-name marker x HA state); NSX has neither marker nor hostname check in the statement.",
   "level_note": "Trusts the node's command classification (by protocol position and effect on the model state).",
   "rule": "case = cisco pair x 32 configurations; evaluations = sessions; non-trivial = reference run has a non-empty script; distinct = hash of texts",
-  "quick": B(3000, 40), "thorough": B(40000, 900),
+  "quick": B(3000, 40), "thorough": B(80000, 900),
   "real": REAL_LIVE, "stubs": STUB_LIVE, "assumptions": ASSUME_LIVE, "min_nontrivial": 20,
  },
  "C09": {
@@ -91,7 +91,7 @@ PROPS.update({
   "level_text": "Compare runs with non-empty differences, missing marker, unconfigured marker, wrong hostname, and all C09 fault kinds at all positions: the device must receive no change, guard or save command (only ASA 'terminal width' inside configure terminal) and its running and startup configuration must be byte-identical afterwards.",
   "level_note": "ASA, IOS, Linux, PAN-OS and NSX.",
   "rule": "evaluations = compare sessions; non-trivial = base compare reports differences; distinct = hash(device, target, front, interlock)",
-  "quick": B(8000, 40), "thorough": B(100000, 900),
+  "quick": B(8000, 40), "thorough": B(400000, 900),
   "real": REAL_LIVE, "stubs": STUB_LIVE, "assumptions": ASSUME_LIVE, "min_nontrivial": 20,
  },
  "C15": {
@@ -100,7 +100,7 @@ PROPS.update({
   "level_text": "Per scenario every change-command position x banner form x kind (thorough: every echo offset) is enumerated. The 1:00 banner is produced by the node's own timer (the node idles until T-60 s on the fake clock). Oracles: changes only while a reload is armed, write memory only after cancel and only if all accepted, nothing pending after OK, re-arm after 1:00, same exit/running/startup/script as without banner.",
   "level_note": "Only banner placements the suite documents as produced by devices (inside the command echo, with extra prompt only at its ends).",
   "rule": "evaluations = bannered sessions; non-trivial = scenario with non-empty script; distinct = hash of texts",
-  "quick": B(4000, 50), "thorough": B(60000, 1200),
+  "quick": B(4000, 50), "thorough": B(240000, 1200),
   "real": REAL_LIVE, "stubs": STUB_LIVE, "assumptions": ASSUME_LIVE, "min_nontrivial": 20,
  },
  "C17": {
@@ -109,7 +109,7 @@ PROPS.update({
   "level_text": "Every sink is scanned after every run (success and each fault kind x position, login positions always). The node never echoes input given at a password prompt and echoes input typed at a command prompt, like real devices.",
   "level_note": "ASA, IOS, Linux (login password), PAN-OS (password, API key), NSX (password, xsrf token, session cookie).",
   "rule": "evaluations = sessions; non-trivial = every case (fresh secret); distinct = hash(secret, kind, front)",
-  "quick": B(3500, 40), "thorough": B(60000, 900),
+  "quick": B(3500, 40), "thorough": B(240000, 900),
   "real": REAL_LIVE, "stubs": STUB_LIVE, "assumptions": ASSUME_LIVE, "min_nontrivial": 20,
  },
 })
@@ -131,7 +131,7 @@ PROPS.update({
   "level_text": "Inputs: every (DEVICE, NETSPOC) pair of the repository's test data for all five device types plus generated tie-heavy ASA/IOS pairs (duplicated / split identical object-groups). K=6 (quick) or 12 (thorough) schedules per input.",
   "level_note": "Sources of nondeterminism other than map iteration are not permuted (the tool has no goroutines of its own, no randomness, no clock in planning). Generated tie inputs for all five device types plus every (DEVICE, NETSPOC) pair of the repository's test data.",
   "rule": "evaluations = planning runs under a permuted schedule; non-trivial = every input (>=1 map site with >1 element); distinct = hash of input texts",
-  "quick": B(40000, 50), "thorough": B(200000, 900),
+  "quick": B(40000, 50), "thorough": B(2000000, 900),
   "real": ["pkg/drc", "pkg/device (CompareFiles)", "pkg/cisco", "pkg/asa", "pkg/ios", "pkg/linux", "pkg/panos", "pkg/nsx (all compiled from the rewritten scratch copy)"],
   "stubs": ["map iteration order: verifmap seam inserted by tools/maporder"], "assumptions": ["the rewrite preserves semantics: the repository's own suite passes on the rewritten copy under ascending order (checked while building this)"], "min_nontrivial": 50,
  },
@@ -168,7 +168,7 @@ PROPS.update({
   "level_text": "Seeded search over interleavings: where in the holder's run each contender starts, which parked process proceeds, whether the holder is killed. flock(2) and the file system are real, so release-on-kill is the kernel's. Oracles: no two sessions on one device, a loser exits 1 with 'Approve in progress' and leaves status/history/logs/device untouched, the lock history is a legal try-lock history (no spurious failure, lock free after kill).",
   "level_note": "Real processes use the real clock (goexpect poll ticker), so no timing faults in this mode; device = IOS node inside the tool process with its state in a file.",
   "rule": "evaluations = multi-process runs; non-trivial = run with at least one loser or a kill; distinct = hash of the event log",
-  "quick": B(400, 60), "thorough": B(6000, 1500),
+  "quick": B(400, 60), "thorough": B(12000, 1500),
   "real": ["cmd/drc and cmd/do-approve main packages rebuilt with the hook installer (3-line mains)", "pkg/drc, pkg/doapprove, pkg/device (SetLock, flock)", "pkg/status", "kernel flock, file system"],
   "stubs": ["ssh: in-process IOS node (state file)", "the two main wrappers"], "assumptions": ASSUME_LIVE, "min_nontrivial": 10,
  },
@@ -178,7 +178,7 @@ PROPS.update({
   "level_text": "Seeded histories of 3-12 events over 1-2 devices. Model: latest conclusive observation (approve OK or undisturbed compare); not established => must be listed; established, observed policy on disk and status not damaged since => must not be listed; anything else either way.",
   "level_note": "The model never reads the status file. Kills of do-approve at hook points are not part of this check (process mode covers locks only).",
   "rule": "evaluations = missing-approve verdicts (one per event); non-trivial = each history; distinct = hash of the event log",
-  "quick": B(6000, 50), "thorough": B(100000, 1200),
+  "quick": B(6000, 50), "thorough": B(400000, 1200),
   "real": REAL_LIVE + ["cmd/missing-approve (real binary)", "bzip2"], "stubs": STUB_LIVE, "assumptions": ASSUME_LIVE, "min_nontrivial": 50,
  },
 })
@@ -191,7 +191,7 @@ PROPS.update({
   "level_text": "Seeded search over (routes, ruleset) pairs; the real session runs in a bubble; afterwards static routes and ruleset (tables, chains, policies, ordered rules; the node's own parsed representation) must equal the target, the startup files must hold them, and a compare of the target with what the node prints in kernel spelling (tape-chosen variants: /32, -m proto, xmark, open port ranges, state order, protocol names, negated syn flags, counters) must be empty; 'unchanged' only for an equivalent device.",
   "level_note": "Kernel spelling is limited to the variants the statement names plus the negated --tcp-flags form the suite documents.",
   "rule": "case = (Linux device, target); non-trivial = plan reports a difference; distinct = hash of texts",
-  "quick": B(20000, 40), "thorough": B(200000, 900),
+  "quick": B(20000, 40), "thorough": B(600000, 900),
   "real": ["pkg/drc, pkg/doapprove, pkg/device, pkg/linux, pkg/console, goexpect"], "stubs": ["ssh: in-process Linux node (/verif/sim/linuxdev)", "scp: shell stub delivering into the node's file system"],
   "assumptions": ["the Linux node represents ip(8)/iptables-restore/iptables-save behaviour (trusted base)"], "min_nontrivial": 50,
  },
@@ -205,7 +205,7 @@ PROPS.update({
   "level_text": "Seeded search over pairs of vsys configurations (rule insert/delete/reorder, groups renamed/copied/split, member edits on both sides of the incremental/replace threshold, same-name-different-value objects, unknown extra XML, default attributes printed by the device, several vsys, foreign vsys, shared objects, backup address). Every request of the emitted script is executed on the candidate tree.",
   "level_note": "Trusts the PAN-OS node (set merges, edit replaces, move before, referential checks per request).",
   "rule": "case = (device config, target); non-trivial = session with >= 1 change request; distinct = hash of texts",
-  "quick": B(40000, 40), "thorough": B(300000, 900),
+  "quick": B(40000, 40), "thorough": B(1000000, 900),
   "real": ["pkg/drc, pkg/doapprove, pkg/device, pkg/panos, pkg/httpdevice, net/http client down to the RoundTripper"],
   "stubs": ["TLS/TCP + device: RoundTripper backed by /verif/sim/panosdev (hook H2)"], "assumptions": ["the PAN-OS node represents the XML API semantics (trusted base)"], "min_nontrivial": 50,
  },
@@ -219,7 +219,7 @@ PROPS.update({
   "level_text": "Seeded search over pairs of NSX states (rules sharing sequence numbers, renamed / copied / shared groups, membership edits on both sides of the replace heuristic, services changed in place, id clashes, left-over objects, extra/missing policies, external groups, paged lists, backup address).",
   "level_note": "Trusts the NSX node. Whether the manager refuses to empty an address expression could not be established offline and is tolerated.",
   "rule": "case = (manager state, target); non-trivial = session with >= 1 change request; distinct = hash of texts",
-  "quick": B(40000, 40), "thorough": B(300000, 900),
+  "quick": B(40000, 40), "thorough": B(1200000, 900),
   "real": ["pkg/drc, pkg/doapprove, pkg/device, pkg/nsx, pkg/httpdevice, net/http client incl. cookie jar down to the RoundTripper"],
   "stubs": ["TLS/TCP + manager: RoundTripper backed by /verif/sim/nsxdev (hook H2)"], "assumptions": ["the NSX node represents the policy API semantics (trusted base)"], "min_nontrivial": 50,
  },
@@ -233,7 +233,7 @@ PROPS.update({
   "level_text": "Oracle states only the constraints of the property: each entry of each part exactly once and nothing else, order inside each part kept, raw before Netspoc unless APPEND, APPEND behind the last permitting Netspoc entry and before the trailing deny/drop entries; a rejected input is accepted as such (never silently shortened). No faults: the property has none; the simulator is used as the device that holds the effective result.",
   "level_note": "ASA, IOS (v4+raw), Linux (v4+raw), PAN-OS (v4+v6+raw), NSX (as a multiset; NSX rules are ordered by sequence number, not position).",
   "rule": "case = part triple; non-trivial = accepted case whose effective list was checked; distinct = hash of the part files",
-  "quick": B(100000, 40), "thorough": B(200000, 900),
+  "quick": B(100000, 40), "thorough": B(5000000, 900),
   "real": ["pkg/drc, pkg/device (file merge), pkg/cisco, pkg/asa, pkg/ios, pkg/linux, pkg/panos, pkg/nsx, pkg/httpdevice"],
   "stubs": ["device nodes /verif/sim/{cisco,linuxdev,panosdev,nsxdev}"], "assumptions": ["the node applies commands/requests like the device (trusted base)"], "min_nontrivial": 50,
  },
